@@ -78,13 +78,26 @@ func (l *Linter) lintBlockStatement(block *ast.BlockStatement, ctx *context.Cont
 		defer delete(l.including, file)
 	}
 
-	statements := l.resolveIncludeStatements(block.Statements, ctx, false)
-	for _, stmt := range statements {
-		func(v ast.Statement, c *context.Context) {
-			l.ignore.SetupStatement(v.GetMeta())
-			defer l.ignore.TeardownStatement(v.GetMeta())
-			l.lint(v, c)
-		}(stmt, ctx)
+	lintStatement := func(v ast.Statement, c *context.Context) {
+		l.ignore.SetupStatement(v.GetMeta())
+		defer l.ignore.TeardownStatement(v.GetMeta())
+		l.lint(v, c)
+	}
+	for _, stmt := range block.Statements {
+		include, ok := stmt.(*ast.IncludeStatement)
+		if !ok {
+			lintStatement(stmt, ctx)
+			continue
+		}
+		// The included statements are linted in place of the include statement,
+		// the ignore comments of the include statement cover them
+		func() {
+			l.ignore.SetupStatement(include.GetMeta())
+			defer l.ignore.TeardownStatement(include.GetMeta())
+			for _, v := range l.resolveIncludeStatements([]ast.Statement{include}, ctx, false) {
+				lintStatement(v, ctx)
+			}
+		}()
 	}
 
 	return types.NeverType
@@ -122,6 +135,10 @@ func (l *Linter) lintDeclareStatement(stmt *ast.DeclareStatement, ctx *context.C
 			Message:  err.Error(),
 		}
 		l.Error(err.Match(DECLARE_STATEMENT_DUPLICATED))
+	} else if l.ignore.IsEnable(UNUSED_VARIABLE) {
+		// The unused variable is reported after the subroutine has been linted,
+		// so mark as used if the rule is ignored on this statement
+		ctx.Get(stmt.Name.Value) // nolint:errcheck
 	}
 
 	// Lint the value expression if present
@@ -324,9 +341,17 @@ func (l *Linter) lintSwitchStatement(stmt *ast.SwitchStatement, ctx *context.Con
 		for _, s := range c.Statements {
 			switch s.(type) {
 			case *ast.BreakStatement, *ast.FallthroughStatement:
-				break // parser already made sure break/fallthrough is at the end.
+				// parser already made sure break/fallthrough is at the end.
+				// Nothing to lint but its comments may open or close an ignore range
+				l.ignore.SetupStatement(s.GetMeta())
+				l.ignore.TeardownStatement(s.GetMeta())
 			default:
-				l.lint(s, ctx)
+				// ignore comments work for the statements in a case like in a block
+				func(v ast.Statement) {
+					l.ignore.SetupStatement(v.GetMeta())
+					defer l.ignore.TeardownStatement(v.GetMeta())
+					l.lint(v, ctx)
+				}(s)
 			}
 		}
 	}
